@@ -18,7 +18,7 @@ func init() {
 	Registry["C03"] = Spec{
 		Run: runC03, Workers: 16, GOMAXPROCS: 4,
 		QuickTimeout: 5 * time.Minute, ThoroughTimeout: 30 * time.Minute,
-		QuickFloor: 300, ThoroughFloor: 5000,
+		QuickFloor: 2000, ThoroughFloor: 40000,
 		RequiredCounters: []string{"sections", "broadcasts_checked", "wait_returns_judged", "broadcast_between_sample_and_block", "gated_templates", "quiescent_judgements"},
 		Rule: "each case runs 1-8 waiters (Broadcast.Wait and the hand-written sample/getWaitCh/select idiom) against 1-4 broadcasters (HoldLock, TryHoldLock, HoldLockMaybeAsync) on one Broadcast whose guarded state (a generation counter) is owned by the harness; " +
 			"every critical section is numbered from inside the callback and checks the open/closed status of every channel handed out; cancellations race broadcasts; a gated template parks the waiter between its sampling section and its select while the satisfying broadcast runs; " +
@@ -100,13 +100,13 @@ func (w *bcWorld) wrap(actor string, body func(bcast func(), getWaitCh func() <-
 
 func runC03(w *mon.Worker) {
 	mon.SetMaxSleep(150 * time.Microsecond)
-	for i := 0; i < w.Share(w.Scale(4000, 150000)); i++ {
+	for i := 0; i < w.Share(w.Scale(20000, 400000)); i++ {
 		mon.SetProb(0.25, verifhook.BcastEnter, verifhook.BcastExit, verifhook.BcastWaitBlock)
 		mon.SetProb(0.05, verifhook.BcastLocked)
 		w.Case("random", nil, bcastRandomCase)
 	}
 	mon.ClearProb()
-	for i := 0; i < w.Share(w.Scale(480, 10000)); i++ {
+	for i := 0; i < w.Share(w.Scale(2000, 40000)); i++ {
 		w.Case("gated", nil, bcastGatedCase)
 	}
 }
